@@ -51,7 +51,11 @@ func RaceMain(t *testing.T) {
 		a, b := seedFor(seed, run, "C13.race")
 		rng := rand.New(rand.NewPCG(a, b))
 		synctest.Test(t, func(t *testing.T) {
-			raceRun(t, rng, dir)
+			if os.Getenv("VERIF_RACE_FOCUS") == "C07" {
+				raceRunC07(t, rng, dir)
+			} else {
+				raceRun(t, rng, dir)
+			}
 		})
 		os.RemoveAll(dir)
 		fmt.Printf("RACE-RUN-DONE %d\n", run)
@@ -166,6 +170,80 @@ func raceRun(t *testing.T, rng *rand.Rand, dir string) {
 		fmt.Printf("RACE-MODE-INVARIANT %v\n", f)
 	}
 	s.Close()
+	cur = nil
+	time.Sleep(4 * time.Second)
+}
+
+// raceRunC07 is the free-running part of C07: 4-24 registration requests,
+// valid for distinct candidate keys, hit a fresh server at the same simulated
+// instant on real parallel goroutines. Exactly one may succeed, and the key in
+// memory, the key on disk and the key after a restart must be the winner's.
+// A count of two successes is a violation whatever the schedule was; the mode
+// samples real schedules and is not exactly replayable.
+func raceRunC07(t *testing.T, rng *rand.Rand, dir string) {
+	m := &Sim{C: NewReplayChooser(nil, nil), S: newSched0(), Prop: "C07", Dir: dir, Start: time.Now(), Faults: map[string]int{}, Probes: map[string]int{}}
+	w := NewWorld(m)
+	n := w.AddServer("srv0", "temp-srv0", true)
+	glow.SetCurrentTimeslot(uint32(500 + rng.IntN(2500)))
+	s, err := server.NewGCAServer(n.Dir)
+	if err != nil {
+		panic(fmt.Sprintf("harness: race mode server does not start: %v", err))
+	}
+	s.VerifSetPorts(n.HTTP, n.TCP, n.UDP)
+	k := 4 + rng.IntN(21)
+	type outcome struct {
+		key  glow.PublicKey
+		code int
+	}
+	results := make([]outcome, k)
+	var wg sync.WaitGroup
+	start := make(chan struct{})
+	for g := 0; g < k; g++ {
+		g := g
+		cand := Key(fmt.Sprintf("cand%d", g))
+		reg := server.GCARegistration{GCAKey: cand.Pub}
+		reg.Signature = glow.Sign(RegistrationSigningBytes(cand.Pub), n.Temp.Priv)
+		body, _ := json.Marshal(reg)
+		wg.Add(1)
+		go func() {
+			defer wg.Done()
+			<-start
+			req := httptest.NewRequest("POST", "/api/v1/register-gca", bytes.NewReader(body))
+			rec := httptest.NewRecorder()
+			s.VerifHandler().ServeHTTP(rec, req)
+			results[g] = outcome{cand.Pub, rec.Code}
+		}()
+	}
+	close(start)
+	wg.Wait()
+	wins := 0
+	var winner glow.PublicKey
+	for _, r := range results {
+		if r.code == 200 {
+			wins++
+			winner = r.key
+		}
+	}
+	snap := s.VerifSnapshot(true)
+	file, _ := os.ReadFile(filepath.Join(n.Dir, "gcaPubKey.dat"))
+	switch {
+	case wins != 1:
+		fmt.Printf("RACE-MODE-VIOLATION C07.once@concurrent-batch %d of %d concurrent valid registrations for distinct keys were answered with 200\n", wins, k)
+	case snap.GCAKey != winner || !bytes.Equal(file, winner[:]):
+		fmt.Printf("RACE-MODE-VIOLATION C07.immutable@concurrent-batch the registration answered with 200 is not the key the server holds (memory match=%v, file match=%v)\n", snap.GCAKey == winner, bytes.Equal(file, winner[:]))
+	}
+	s.Close()
+	if wins == 1 {
+		s2, err := server.NewGCAServer(n.Dir)
+		if err != nil {
+			fmt.Printf("RACE-MODE-VIOLATION C07.start@concurrent-batch server does not restart after a concurrent registration batch: %v\n", err)
+		} else {
+			if k2 := s2.VerifSnapshot(true).GCAKey; k2 != winner {
+				fmt.Printf("RACE-MODE-VIOLATION C07.immutable@restart after a restart the server holds a different GCA key than the one it confirmed\n")
+			}
+			s2.Close()
+		}
+	}
 	cur = nil
 	time.Sleep(4 * time.Second)
 }
